@@ -229,18 +229,33 @@ def split_options(n, maxlen, row_left=None):
     return opts
 
 
+def opt(ch, options, label, is_open=True):
+    """Offer a choice only at 'open' points; elsewhere take the default silently."""
+    if not is_open or len(options) == 1:
+        return options[0]
+    return ch.choose(options, label)
+
+
+def run_open(run_index, n_runs, piece_index, left, maxlen):
+    """Choice points are opened for the first/last runs of a picture and for the first two and the last piece of a run."""
+    return (run_index < 24 or run_index >= n_runs - 4) and (piece_index < 2 or left <= maxlen)
+
+
 def mge_rle_encode(body, ch, row_bytes=160):
     """Nondeterministic MGE run-length encoder: (count,value)* 0."""
     out = bytearray()
     pos = 0
-    for v, n in runs_of(body):
+    runs = runs_of(body)
+    for ri, (v, n) in enumerate(runs):
         left = n
+        pi = 0
         while left:
             row_left = row_bytes - (pos % row_bytes)
-            c = ch.choose(split_options(left, 255, row_left), "mge-run")
+            c = opt(ch, split_options(left, 255, row_left), "mge-run", run_open(ri, len(runs), pi, left, 255))
             out += bytes([c, v])
             left -= c
             pos += c
+            pi += 1
     out.append(0)
     return bytes(out)
 
@@ -252,21 +267,25 @@ def mge_rle_file(palette, body, ch, rgb_flag=0, title=b"TITLE"):
 def rat_encode(body, ch, escape):
     out = bytearray()
     pos = 0
-    for v, n in runs_of(body):
+    runs = runs_of(body)
+    for ri, (v, n) in enumerate(runs):
         left = n
+        pi = -1
         while left:
+            pi += 1
+            is_open = run_open(ri, len(runs), pi, left, 255)
             row_left = 160 - (pos % 160)
             if v == escape:
                 # a literal equal to the escape byte must be escape-coded
-                c = ch.choose(split_options(left, 255, row_left), "rat-esc-run")
+                c = opt(ch, split_options(left, 255, row_left), "rat-esc-run", is_open)
                 out += bytes([escape, c, v])
             else:
                 if left == 1:
-                    form = ch.choose(["lit", "run1"], "rat-single")
+                    form = opt(ch, ["lit", "run1"], "rat-single", is_open)
                     c = 1
                     out += bytes([v]) if form == "lit" else bytes([escape, 1, v])
                 elif left <= 3:
-                    form = ch.choose(["run", "lits", "lit1"], "rat-short")
+                    form = opt(ch, ["run", "lits", "lit1"], "rat-short", is_open)
                     if form == "run":
                         c = left
                         out += bytes([escape, c, v])
@@ -277,7 +296,7 @@ def rat_encode(body, ch, escape):
                         c = 1
                         out += bytes([v])
                 else:
-                    c = ch.choose(split_options(left, 255, row_left), "rat-run")
+                    c = opt(ch, split_options(left, 255, row_left), "rat-run", is_open)
                     if c == 1:
                         out += bytes([v])
                     else:
@@ -323,9 +342,12 @@ def cm3_raw_file(palette, body, two_pages=False, patterns=False):
     return bytes(out)
 
 
-def cm3_encode_line(row, prev, ch, allow_raw=True):
+CM3_OPEN_COLS = (0, 1, 2, 79, 80, 158, 159)
+
+
+def cm3_encode_line(row, prev, ch, allow_raw=True, line_open=True):
     """One CM3 line. prev = previous decoded line (160 bytes, zeros before the first)."""
-    if allow_raw and ch.choose(["coded", "raw"], "cm3-line-form") == "raw":
+    if allow_raw and opt(ch, ["coded", "raw"], "cm3-line-form", line_open) == "raw":
         ctl = ch.choose([0x80, 0xFF, 0x81], "cm3-raw-ctl")
         return bytes([ctl]) + bytes(row)
     bits1 = []
@@ -342,7 +364,7 @@ def cm3_encode_line(row, prev, ch, allow_raw=True):
         if a == up:
             opts.append("up")
         opts.append("lit")
-        how = ch.choose(opts, "cm3-byte") if len(opts) > 1 else opts[0]
+        how = opt(ch, opts, "cm3-byte", line_open and x in CM3_OPEN_COLS)
         if how == "left":
             bits1.append(0)
         else:
@@ -367,6 +389,9 @@ def cm3_encode_line(row, prev, ch, allow_raw=True):
     return bytes([n2]) + bytes(b1) + bytes(b2) + bytes(lits)
 
 
+CM3_OPEN_LINES = (0, 1, 2, 3, 96, 190, 191, 192, 193, 194, 382, 383)
+
+
 def cm3_coded_file(palette, body, ch, two_pages=False, patterns=False):
     rows = 384 if two_pages else 192
     assert len(body) == rows * 160
@@ -376,7 +401,7 @@ def cm3_coded_file(palette, body, ch, two_pages=False, patterns=False):
         out.append(192)
         for r in range(192):
             row = body[(page * 192 + r) * 160 : (page * 192 + r + 1) * 160]
-            out += cm3_encode_line(row, prev, ch)
+            out += cm3_encode_line(row, prev, ch, line_open=(page * 192 + r) in CM3_OPEN_LINES)
             prev = list(row)
     return bytes(out)
 
@@ -394,7 +419,10 @@ def vef_raw_file(palette, body, vtype):
     return bytes([0, vtype]) + bytes(palette) + bytes(body)
 
 
-def vef_squash_record(rec, ch, pad=True):
+VEF_OPEN_RECORDS = (0, 1, 2, 3, 199, 200, 398, 399)
+
+
+def vef_squash_record(rec, ch, pad=True, rec_open=True):
     out = bytearray()
     runs = runs_of(rec)
     i = 0
@@ -404,7 +432,7 @@ def vef_squash_record(rec, ch, pad=True):
     def flush():
         nonlocal pending
         while pending:
-            c = ch.choose(split_options(len(pending), 128), "vef-lit-len")
+            c = opt(ch, split_options(len(pending), 128), "vef-lit-len", rec_open)
             out.append(c)
             out.extend(pending[:c])
             pending = pending[c:]
@@ -413,9 +441,9 @@ def vef_squash_record(rec, ch, pad=True):
         left = n
         while left:
             if left == 1:
-                form = ch.choose(["lit", "rep"], "vef-single")
+                form = opt(ch, ["lit", "rep"], "vef-single", rec_open)
             elif left <= 2:
-                form = ch.choose(["rep", "lit"], "vef-short")
+                form = opt(ch, ["rep", "lit"], "vef-short", rec_open)
             else:
                 form = "rep"
             if form == "lit":
@@ -423,11 +451,11 @@ def vef_squash_record(rec, ch, pad=True):
                 left -= 1
                 continue
             flush()
-            c = ch.choose(split_options(left, 127), "vef-rep-len")
+            c = opt(ch, split_options(left, 127), "vef-rep-len", rec_open)
             out += bytes([128 + c, v])
             left -= c
     flush()
-    if pad and ch.choose([False, True], "vef-pad"):
+    if pad and opt(ch, [False, True], "vef-pad", rec_open):
         out += bytes([128 + 3, 0xAA])  # data beyond orig_len must be ignored
     if len(out) > 255:
         raise ValueError("record too long")
@@ -438,7 +466,7 @@ def vef_squashed_file(palette, body, vtype, ch):
     t = VEF_TYPES[vtype]
     out = bytearray(bytes([128, vtype]) + bytes(palette))
     for r in range(400):
-        out += vef_squash_record(body[r * t["rec"] : (r + 1) * t["rec"]], ch)
+        out += vef_squash_record(body[r * t["rec"] : (r + 1) * t["rec"]], ch, rec_open=r in VEF_OPEN_RECORDS)
     return bytes(out)
 
 
